@@ -251,6 +251,21 @@ fn gen_c17() -> (String, Vec<Func>) {
             format!("let m: HashMap<{b}, {b}> = HashMap::new(); let g = m.guard(); use_it(m.len()); use_it(m.is_empty()); use_it(m.get(&{b}::default(), &g)); use_it(m.get_key_value(&{b}::default(), &g)); use_it(m.contains_key(&{b}::default(), &g)); use_it(m.iter(&g).count()); use_it(m.keys(&g).count()); use_it(m.values(&g).count()); let s: HashSet<{b}> = HashSet::new(); let gs = s.guard(); use_it(s.len()); use_it(s.contains(&{b}::default(), &gs)); use_it(s.get(&{b}::default(), &gs)); use_it(s.iter(&gs).count());"),
         );
     }
+    // ... through every facade: pinned / with_guard reference wrappers, set wrappers, set relations,
+    // equality and indexing (one program per facade so that a tightened bound is named precisely)
+    for b in bad {
+        let progs: Vec<(&str, String)> = vec![
+            ("HashMapRef via pin(): len/is_empty/get/get_key_value/contains_key/iter/keys/values", format!("let m: HashMap<{b}, {b}> = HashMap::new(); let r = m.pin(); use_it(r.len()); use_it(r.is_empty()); use_it(r.get(&{b}::default())); use_it(r.get_key_value(&{b}::default())); use_it(r.contains_key(&{b}::default())); use_it(r.iter().count()); use_it(r.keys().count()); use_it(r.values().count()); use_it((&r).into_iter().count());")),
+            ("HashMapRef via with_guard(): get/contains_key/iter", format!("let m: HashMap<{b}, {b}> = HashMap::new(); let g = m.guard(); let r = m.with_guard(&g); use_it(r.len()); use_it(r.get(&{b}::default())); use_it(r.get_key_value(&{b}::default())); use_it(r.contains_key(&{b}::default())); use_it(r.iter().count());")),
+            ("HashSetRef via pin() / with_guard(): len/is_empty/contains/get/iter", format!("let s: HashSet<{b}> = HashSet::new(); let r = s.pin(); use_it(r.len()); use_it(r.is_empty()); use_it(r.contains(&{b}::default())); use_it(r.get(&{b}::default())); use_it(r.iter().count()); let g = s.guard(); let w = s.with_guard(&g); use_it(w.contains(&{b}::default())); use_it(w.get(&{b}::default()));")),
+            ("set relations", format!("let s: HashSet<{b}> = HashSet::new(); let t: HashSet<{b}> = HashSet::new(); let (g, h) = (s.guard(), t.guard()); use_it(s.is_subset(&t, &g, &h)); use_it(s.is_superset(&t, &g, &h)); use_it(s.is_disjoint(&t, &g, &h)); use_it(s.pin().is_subset(&t.pin())); use_it(s.pin().is_disjoint(&t.pin()));")),
+            ("equality of maps and sets", format!("let m: HashMap<{b}, {b}> = HashMap::new(); let n: HashMap<{b}, {b}> = HashMap::new(); use_it(m == n); use_it(m.pin() == n.pin()); let s: HashSet<{b}> = HashSet::new(); let t: HashSet<{b}> = HashSet::new(); use_it(s == t); use_it(s.pin() == t.pin());")),
+            ("generic read-only helper with only the documented bounds", format!("fn look<K: Hash + Ord, V, S: std::hash::BuildHasher>(m: &flurry::HashMapRef<'_, K, V, S>, k: &K) -> bool {{ m.get(k).is_some() || m.contains_key(k) || m.get_key_value(k).is_some() || m.iter().count() > 0 }} let m: HashMap<{b}, {b}> = HashMap::new(); use_it(look(&m.pin(), &{b}::default()));")),
+        ];
+        for (what, body) in progs {
+            add(&mut fs, false, (what, &format!("{} keys and values", b)), body);
+        }
+    }
     let mut src = String::from(PRELUDE_17);
     for f in &fs {
         src.push_str(&format!("pub fn {}() {{ {} }}\n", f.name, f.body));
